@@ -1,5 +1,6 @@
 pub mod c26;
 pub mod c27;
+pub mod c30;
 pub mod c31;
 pub mod execmin;
 
@@ -9,6 +10,7 @@ pub fn lookup(id: &str) -> Option<Box<dyn Property>> {
     match id {
         "C26" => Some(Box::new(c26::C26)),
         "C27" => Some(Box::new(c27::C27)),
+        "C30" => Some(Box::new(c30::C30)),
         "C31" => Some(Box::new(c31::C31)),
         _ => None,
     }
